@@ -130,7 +130,8 @@ pub fn corruptions(inst: &Instance, dense: bool) -> Vec<Corr> {
     // every length near and at multiples of the right one: only the length check can reject a
     // zero-padded last layer (the polynomial is unchanged)
     let l = inst.last.len();
-    for n in [0, l / 2, l + 2, 2 * l, 3 * l, 4 * l, 5 * l, 6 * l, 3 * l / 2] {
+    // ... and lengths that agree with the right one modulo 2^8 / 2^16 (a check done on a truncated integer)
+    for n in [0, l / 2, l + 2, 2 * l, 3 * l, 4 * l, 5 * l, 6 * l, 3 * l / 2, l + 256, l + 65536, l + 2 * 65536] {
         if n != l {
             out.push(Corr::LastLen(n));
         }
